@@ -47,6 +47,13 @@ CHECKS = {
         "note": "conjoin/disjoin assumed contract; remove_orphaned_variables, join_nested_quantifiers, classic.rs, Compose::compose not verified; D11/D12 normalisations applied by the extractor.",
         "technique": "contract-based deductive verification (Verus) of mechanically extracted real code",
     },
+    "C16": {
+        "text": "By-product of every unit: all executable functions under contract are proved free of panics, unreachable code, failed unwraps, out-of-range indexing and overflow under their stated preconditions (Verus treats each as a proof obligation), "
+                "plus an unconditional proof for the TPTP numeral printer and a call-site obligation linking a role check to the routing step. Two genuine crash defects were found this way and fixed. The parser/CLI stage is outside reach.",
+        "design_ref": "DESIGN.md §5 C16, §8",
+        "note": "parser stage (pest), clap, and functions not under contract are not covered; preconditions are assumed at call sites except where listed.",
+        "technique": "contract-based deductive verification (Verus): panic-freedom obligations of mechanically extracted real code",
+    },
     "C17": {
         "text": "Unbounded deductive proof (Verus) on the real code: the postcondition of the extracted Formula::substitute is the substitution lemma itself (truth value in every HT and classical interpretation "
                 "under every assignment; free-variable equation), for all formulas, variables and sort-compatible terms, including all binder-renaming cases; term/atom level functions are proved equal to spec mirrors "
